@@ -156,6 +156,9 @@ def simplify(e, body):
         return e
     if e[0] == "load" and isinstance(e[1], tuple) and e[1] and e[1][0] == "addr" and len(e[1]) == 4:
         return e[1][3].expr_local(e[1][1], e[1][2])
+    if e[0] == "addr" and len(e) == 4:
+        # a by-reference capture used as such (passed on, or as a receiver): references are transparent
+        return e[3].expr_local(e[1], e[2])
     return tuple(simplify(x, body) if isinstance(x, tuple) else x for x in e)
 
 
@@ -243,8 +246,10 @@ class Collector:
                     for ui, uop in enumerate(a[2]):
                         ue = uop
                         if ue[0] == "addr":
-                            ue = ("addr", ue[1], ue[2], body)
-                        cmap[("upvar", ui)] = self._sub(ue, mapping, body) if ue[0] != "addr" else ue
+                            # captured by reference: what the local denotes where the closure is created, in the frame of the
+                            # enclosing body (so that an enclosing closure's own parameter binding applies to it)
+                            ue = body.expr_local(ue[1], ue[2])
+                        cmap[("upvar", ui)] = self._sub(ue, mapping, body)
                     # closure parameters
                     it = args[0] if args else None
                     bind = closure_param_binding(c.get("name", ""), c.get("decl", ""), it, cb.arg_count - 1)
